@@ -25,6 +25,8 @@ Oracle (independent of the model, on what the implementation did):
     uncached ones with a partly filled cache, [main tile] with refresh_all), in tile_list order; no call when none does;
   * the mapproxy-seed command (SeedScript via sys.argv): without --continue a leftover progress file is ignored, with
     --continue the union covers everything; configured level ranges (from/to, also 0) select exactly the chosen levels;
+  * the walk stopped through the SeedProgress.running() hook at a chosen _walk call (StopProcess), then continued from
+    the progress file (traces also compared with Seed.run_walk_s / geo_walk_s);
   * an interruption right after any write of the progress file that is not a progress report;
   * interrupted with real worker processes (real seed_task / TileWorkerPool / TileSeedWorker): every list handed over
     before the interrupt is worked off before seed_task returns (oracle only);
@@ -232,17 +234,21 @@ class RecPool(object):
         if self.progress_logger:
             store = getattr(self.progress_logger, 'progress_store', None)
             before = store.writes if store is not None else 0
+            # more than half a second passes between two hand-overs: log_step is due at every call
+            self.run.clock.now += 1.0
             self.progress_logger.log_step(progress)
             if store is not None and store.writes > before:
                 # the progress file was written outside a progress report: an interruption right here is a crash point
                 # of its own (the model has no such write; the resume oracle decides whether what was written is safe)
                 self.run.step_writes.append(len(self.run.events))
+                if canon_ident(store.status.get(self.progress_logger.current_task_id)) == ():
+                    self.run.step_writes_done.append(len(self.run.events))
 
 
 class Run(object):
     """One (possibly interrupted) run of the real TileWalker for `task`, continuing from progress file `fn`."""
 
-    def __init__(self, task, spec, fn, crash_at, persist_plan, record_tree=False, record_cov=None):
+    def __init__(self, task, spec, fn, crash_at, persist_plan, record_tree=False, record_cov=None, stop_at=None):
         self.task, self.spec, self.fn = task, spec, fn
         self.crash_at = crash_at
         self.persist_plan = persist_plan
@@ -257,6 +263,8 @@ class Run(object):
         self.record_tree = record_tree
         self.record_cov = record_cov
         self.step_writes = []
+        self.step_writes_done = []       # ... that stored [] (= task finished)
+        self.stop_at = stop_at      # SeedProgress.running() answers True this many times, then False
 
     def tick(self):
         if self.crash_at is not None and len(self.events) >= self.crash_at:
@@ -289,7 +297,19 @@ class Run(object):
             log.setup(self)
             log.current_task_id = self.task.id
             pool = RecPool(self, log)
-            progress = SeedProgress(old_progress_identifier=store.get(self.task.id))
+            if self.stop_at is None:
+                progress = SeedProgress(old_progress_identifier=store.get(self.task.id))
+            else:
+                stop_at = self.stop_at
+
+                class StoppingProgress(SeedProgress):
+                    # the hook embedding applications use to stop a seed: _walk asks running() once per call
+                    asked = 0
+
+                    def running(self):
+                        self.asked += 1
+                        return self.asked <= stop_at
+                progress = StoppingProgress(old_progress_identifier=store.get(self.task.id))
             if self.record_cov is not None:
                 orig_intersects = self.task.intersects
                 table = self.record_cov
@@ -617,7 +637,7 @@ def gen_exact_spec(rng):
             'cached': gen_cached(rng), 'womt': rng.random() < 0.75}
 
 
-def gen_pyramid_spec(rng, irregular=False, multi=False):
+def gen_pyramid_spec(rng, irregular=False, multi=False, roots=False):
     """regular pyramid, several levels below the first level that has whole meta tiles inside a large polygon cut by a
     sloping edge: CONTAINED subtiles next to INTERSECTING ones with NONE tiles below them"""
     t = rng.choice([4, 8, 4, 5])
@@ -631,7 +651,7 @@ def gen_pyramid_spec(rng, irregular=False, multi=False):
                           [900, 600, 250, 200, 90]])
         k0 = rng.randrange(0, len(seq) - n + 1)
         res = seq[k0:k0 + n]
-    k = rng.choice([1, 2])
+    k = 2 if roots else rng.choice([1, 2])
     x0, y0 = rng.randrange(-2000, 2000), rng.randrange(-2000, 2000)
     gs = {'srs': 3857, 'bbox': [x0, y0, x0 + res[0] * t * k, y0 + res[0] * t * k], 'tile_size': [t, t], 'res': res,
           'origin': rng.choice(['ll', 'ul'])}
@@ -651,7 +671,9 @@ def gen_pyramid_spec(rng, irregular=False, multi=False):
         cov = {'type': 'multi', 'parts': [cov, {'type': 'bbox', 'srs': 3857,
                                                 'bbox': [math.floor(bx), math.floor(by), math.floor(bx + 0.3 * w), math.floor(by + 0.3 * h)]}]}
     levels = rng.choice([list(range(n)), list(range(1, n)), [n - 1], [0, n - 1]])
-    return {'stream': 'exact', 'grid': gs, 'meta': list(rng.choice([(1, 1), (1, 1), (2, 2), (2, 1)])),
+    if roots:
+        levels = list(range(n))     # level 0 (2 x 2 root tiles, see k) is seeded too
+    return {'stream': 'exact', 'grid': gs, 'meta': list(rng.choice([(1, 1), (1, 1), (2, 2), (2, 1)])) if not roots else [1, 1],
             'levels': levels, 'cov': cov, 'skip': 0, 'real_tm': rng.random() < 0.5, 'refresh_all': rng.random() < 0.5,
             'cached': gen_cached(rng)}
 
@@ -1132,7 +1154,7 @@ class TaskCheck(object):
                 idxs.add(rng.choice(pref) if (pref and rng.random() < 0.6) else rng.choice(cands))
         out = []
         # interruptions right after a write of the progress file that did not come from a report (same schedule as U)
-        targeted = [k for k in (U.step_writes[:2] + U.step_writes[-3:]) if k not in idxs]
+        targeted = [k for k in (U.step_writes_done[:2] + U.step_writes[:1] + U.step_writes[-2:]) if k not in idxs]
         targeted = sorted(set(targeted))
         if U.step_writes:
             ctx.count('progress_writes_outside_reports', len(U.step_writes))
@@ -1180,6 +1202,35 @@ class TaskCheck(object):
                          dict(desc, missing=sorted(missing)[:10]))
             for j, c in enumerate(chain):
                 out.append(('chain%d.%d' % (k, j), c, c.crash_at))
+        # stopped through SeedProgress.running() at a chosen _walk call, then continued from the progress file
+        ncalls = tree_nodes(U.tree.root) if (U.tree is not None and U.tree.root is not None) else 0
+        if ncalls:
+            if ctx.quick:
+                stops = sorted(set(rng.randrange(0, ncalls) for _ in range(2)))
+            else:
+                stops = list(range(ncalls)) if ncalls <= 30 else sorted(set(rng.randrange(0, ncalls) for _ in range(10)))
+            for sidx in stops:
+                fn = self.fresh_file()
+                p = rng.choice([1.0, 1.0, 0.5])
+                bits = [rng.random() < p for _ in range(len(rep_idx) + 8)]
+                r1 = Run(task, spec, fn, None, (lambda i, _b=bits: _b[i] if i < len(_b) else True), stop_at=sidx).go()
+                rl = Run(task, spec, fn, None, lambda i: True).go()
+                union = set(r1.processed()) | set(rl.processed())
+                desc = {'task': spec, 'stopped_at_walk_call': sidx, 'resumed_from': rl.old, 'persist_probability': p}
+                ctx.case(('stop', json.dumps(spec, sort_keys=True), sidx, rl.old), True, desc if len(ctx.samples) < 6 else None)
+                ctx.count('stops_through_running_hook')
+                for c in (r1, rl):
+                    self.oracle_store(c, 'stopped/resumed')
+                    if c.raised:
+                        ctx.fail('walk-raises:' + c.raised.split(':')[0], 'stopped / continued walk raised %s' % c.raised, desc)
+                missing = uset - union
+                if missing:
+                    ctx.fail('resume-loses-tiles',
+                             'the walk was stopped through SeedProgress.running() at its _walk call number %d and continued from the saved '
+                             'progress %r: %d tile(s) of the uninterrupted run were never processed, e.g. %r'
+                             % (sidx, rl.old, len(missing), sorted(missing)[:3]), dict(desc, missing=sorted(missing)[:10]))
+                out.append(('stop%d.0' % sidx, r1, None))
+                out.append(('stop%d.1' % sidx, rl, None))
         return out
 
     # ---- correspondence cases
@@ -1209,10 +1260,11 @@ class TaskCheck(object):
                 out['defs'].append(gc.definition())
                 for name, r, k in runs:
                     obs = r.events[:]
-                    term = '(%s, %d, %d, %s, %s, %s, %s, %s, %s, (%s, %s, %s), %s)' % (
+                    term = '(%s, %d, %d, %s, %s, %s, %s, %s, %s, (%s, %s, %s), %s, %s)' % (
                         gc.name, spec['meta'][0], spec['meta'][1], covterm, zlit(spec.get('skip', 0)), llit(spec['levels']),
                         root, ident_lit(r.old), 'None' if not r.crashed else 'Some %d%%nat' % len(obs),
-                        blit(handle_all), keep_lit(rule), blit(spec.get('womt', True)), oevents_lit(obs))
+                        blit(handle_all), keep_lit(rule), blit(spec.get('womt', True)),
+                        'None' if r.stop_at is None else 'Some %d%%nat' % r.stop_at, oevents_lit(obs))
                     out['geo'].append((term, {'task': spec, 'run': name, 'old': r.old, 'crash_at': k, 'events': len(obs),
                                               'observed_tail': [list(e) for e in obs[-4:]]}))
                 return
@@ -1247,9 +1299,10 @@ class TaskCheck(object):
                 return (-1, -1, -1)
         for name, r, k in runs:
             obs = r.events[:]
-            term = '(%s, %s, %s, %s, %s, %s)' % (tname, zlit(spec['levels'][0]), ident_lit(r.old),
-                                                 'None' if not r.crashed else 'Some %d%%nat' % len(obs), dropterm,
-                                                 events_lit(obs, main_of))
+            term = '(%s, %s, %s, %s, %s, %s, %s)' % (tname, zlit(spec['levels'][0]), ident_lit(r.old),
+                                                     'None' if not r.crashed else 'Some %d%%nat' % len(obs), dropterm,
+                                                     'None' if r.stop_at is None else 'Some %d%%nat' % r.stop_at,
+                                                     events_lit(obs, main_of))
             out['tree'].append((term, {'task': spec, 'run': name, 'old': r.old, 'crash_at': k, 'events': len(obs)}))
 
 
@@ -2012,7 +2065,7 @@ def run(ctx):
     for _ in range(ctx.n(22, 160)):
         specs.append(gen_exact_spec(rng))
     for j in range(ctx.n(6, 30)):
-        specs.append(gen_pyramid_spec(rng, irregular=(j % 2 == 1), multi=(j % 3 == 0)))
+        specs.append(gen_pyramid_spec(rng, irregular=(j % 2 == 1), multi=(j % 3 == 0), roots=(j == 1)))
     for _ in range(ctx.n(2, 10)):
         specs.append(gen_bend_spec(rng))
     for _ in range(ctx.n(7, 40)):
@@ -2027,15 +2080,17 @@ def run(ctx):
             import traceback
             ctx.problem('harness', 'task check raised %r' % (e,), {'task': spec, 'trace': traceback.format_exc()[-1500:]})
     ctx.corr_check('geo_walk', 'Grid Seed',
-                   'grid * Z * Z * (bbox -> Z) * Z * list Z * bbox * option path * option nat * (bool * (coord -> bool) * bool) * list oevent',
+                   'grid * Z * Z * (bbox -> Z) * Z * list Z * bbox * option path * option nat * (bool * (coord -> bool) * bool) * option nat * list oevent',
                    [t for t, _ in out['geo']],
-                   "fun c => let '(g, msx, msy, cv, sk, lvls, root, old, k, (hall, keep, womt), obs) := c in "
+                   "fun c => let '(g, msx, msy, cv, sk, lvls, root, old, k, (hall, keep, womt), stop, obs) := c in "
                    "let cut := fun (k : option nat) (l : list oevent) => match k with None => l | Some n => firstn n l end in "
-                   "oevents_eqb (cut k (observe g msx msy womt hall keep (geo_walk g msx msy cv sk lvls root old))) obs",
+                   "oevents_eqb (cut k (observe g msx msy womt hall keep (geo_walk_s g msx msy cv sk lvls root old stop))) obs && "
+                   "match stop with None => oevents_eqb (cut k (observe g msx msy womt hall keep (geo_walk g msx msy cv sk lvls root old))) obs | Some _ => true end",
                    lambda i: out['geo'][i][1], defs='\n'.join(out['defs']), shard=ctx.n(12, 40))
-    ctx.corr_check('tree_walk', 'Grid Seed', 'wnode * Z * option path * option nat * list coord * list event',
+    ctx.corr_check('tree_walk', 'Grid Seed', 'wnode * Z * option path * option nat * list coord * option nat * list event',
                    [t for t, _ in out['tree']],
-                   "fun c => let '(tr, flv, old, k, drop, obs) := c in "
+                   "fun c => let '(tr, flv, old, k, drop, stop, obs) := c in "
                    "let cut := fun (k : option nat) (l : list event) => match k with None => l | Some n => firstn n l end in "
-                   "events_eqb (cut k (drop_procs drop (run_walk old tr flv))) obs",
+                   "events_eqb (cut k (drop_procs drop (run_walk_s old tr flv stop))) obs && "
+                   "match stop with None => events_eqb (cut k (drop_procs drop (run_walk old tr flv))) obs | Some _ => true end",
                    lambda i: out['tree'][i][1], defs='\n'.join(out['tdefs']), shard=ctx.n(12, 40))
